@@ -294,9 +294,11 @@ def bus_oracle(tr):
     tk = Tracker()
     rules = {}          # cid -> list of (text, parsed or None)
     fdcap = {}          # cid -> descriptor passing negotiated
+    ever = set()        # every unique name seen so far
     from .. import buscheck
     for i, (per, closed) in enumerate(tr.steps):
         tk.before(i, tr)
+        ever |= set(v for v in tk.names.values() if v)
         op = tr.ops[i]
         sent = tr.sent(i) if op[0] == "send" else None
         actor = op[1] if op[0] == "send" else None
@@ -339,6 +341,19 @@ def bus_oracle(tr):
                     for k in range(len(lst) - 1, -1, -1):
                         if lst[k][1] == parsed and (parsed is not None or lst[k][0] == text):
                             del lst[k]; break
+            elif body.startswith("s:") and err and hexname(fld(sent, "member")) == "RemoveMatch":
+                # a rule the connection added and never removed is still its rule: RemoveMatch finds it - unless it names the unique name of
+                # a connection that has left (the bus drops such rules: the name will never be used again)
+                text = b"" if body == "s:-" else bytes.fromhex(body[2:])
+                parsed = parse_simple(text)
+                held = [k for k, (t_, p_) in enumerate(rules.get(actor, [])) if p_ == parsed and (parsed is not None or t_ == text)]
+                named = re.findall(rb"(?:sender|destination)='(:[0-9.]+)'", text)
+                alive = set(tk.names.get(c) for c in tk.live)
+                # (a unique name nobody has ever had cannot have left: rules naming it are never dropped)
+                if held and all(nm.decode() in alive or nm.decode() not in ever for nm in named) and \
+                        any(hexname(fld(l, "err")) == "org.freedesktop.DBus.Error.MatchRuleNotFound" and fld(l, "rs") == fld(sent, "ser") for l in mine):
+                    bad.append((None, "step %d: connection %d holds the rule %r (added, never removed, every connection it names still there) and RemoveMatch "
+                                      "does not find it" % (i, actor, text.decode("latin1"))))
         tk.after(i, tr)
         for c in list(rules):
             if c not in tk.live:
